@@ -62,6 +62,13 @@ def ref_match(pattern, abspath, isdir):
     pat = pattern.rstrip("/")
     if pat.startswith("**/"):
         pat = pat[3:]
+        if "/" in pat:      # '**/a/b': the component sequence a, b at any depth
+            pc = pat.split("/")
+            for i in range(len(comps) - len(pc) + 1):
+                if all(fnmatch.fnmatchcase(c, q) for c, q in zip(comps[i:i + len(pc)], pc)):
+                    if i + len(pc) < len(comps) or isdir or not dironly:
+                        return True
+            return False
     if pat.startswith("/"):
         pc = [c for c in pat.split("/") if c]
         if len(pc) > len(comps):
@@ -86,7 +93,18 @@ def pattern_forms():
             "ABSF:x1/m.cmake", "ABSD:x2/", "ABSD:y/deep/", "m.cmake", "INPUT/", "in", "ANCESTOR/", "ABSGLOB:i*/k.cmake",
             "ABSGLOB:*/x2/", "in/", "i*/", "**/in/",
             # directory-only patterns that would also match file names; patterns for the mixed-case extension
-            "e*/", "k.cmake/", "e3.CMake", "e[0-9].*", "*.CMake"]
+            "e*/", "k.cmake/", "e3.CMake", "e[0-9].*", "*.CMake",
+            # a trailing '/*' two and one level(s) above the input: everything below is excluded, the input included
+            "BOX/*", "ANCESTOR/*", "**/work/*"]
+
+
+BLANK_FILES = ["old api.cmake", "api.cmake", "k.cmake"]
+BLANK_DIRS = ["my dir", "dir"]
+
+
+def blank_forms():
+    """patterns with a blank inside (an ordinary character in gitignore syntax)"""
+    return ["old api.cmake", "my dir/", "my dir", "ABSF:old api.cmake", "ABSD:my dir/", "old*", "* dir/"]
 
 
 def resolve(p, boxroot):
@@ -97,6 +115,10 @@ def resolve(p, boxroot):
         return base + "/"
     if p == "ANCESTOR/":                       # the directory that contains the input directory
         return os.path.dirname(base) + "/"
+    if p == "ANCESTOR/*":
+        return os.path.dirname(base) + "/*"
+    if p == "BOX/*":                           # two levels above the input directory
+        return os.path.dirname(os.path.dirname(base)) + "/*"
     if p.startswith("ABSGLOB:"):               # a glob in a component at/above the input directory
         return os.path.join(os.path.dirname(base), p[8:])
     return p
@@ -142,18 +164,18 @@ def validate_matcher():
     import pathspec
     n = 0
     root = "/dev/shm/sandbox-zz/box-1"
-    t = T(FILES, DIRS)
-    for p in pattern_forms():
-        rp = resolve(p, root)
-        spec = pathspec.PathSpec.from_lines("gitwildmatch", [rp])
-        for rel, isdir in t.entries() + [("", True)]:
-            ap = os.path.join(root, "work", "in", rel).rstrip("/")
-            got = spec.match_file(ap + ("/" if isdir else ""))
-            want = ref_match(rp, ap, isdir)
-            n += 1
-            if got != want:
-                raise common.HarnessFault(f"reference matcher disagrees with pathspec on pattern {rp!r} path {ap!r} "
-                                          f"(dir={isdir}): pathspec {got}, reference {want}")
+    for t, forms in ((T(FILES, DIRS), pattern_forms()), (T(BLANK_FILES, BLANK_DIRS), blank_forms())):
+      for p in forms:
+          rp = resolve(p, root)
+          spec = pathspec.PathSpec.from_lines("gitwildmatch", [rp])
+          for rel, isdir in t.entries() + [("", True)]:
+              ap = os.path.join(root, "work", "in", rel).rstrip("/")
+              got = spec.match_file(ap + ("/" if isdir else ""))
+              want = ref_match(rp, ap, isdir)
+              n += 1
+              if got != want:
+                  raise common.HarnessFault(f"reference matcher disagrees with pathspec on pattern {rp!r} path {ap!r} "
+                                            f"(dir={isdir}): pathspec {got}, reference {want}")
     return n
 
 
@@ -198,6 +220,12 @@ def run_case(job):
             argv = [a if a != "s.yaml" else box.path("work", "s.yaml") for a in argv]
             argv[argv.index("-o") + 1] = box.path("work", "out")
             r = box.run(argv + [box.path("work", "in")], cwd="home", schedule=schedule, user_config=ucfg)
+        elif variant == "dotdot":
+            # the input spelled relative to a build directory next to it, with '..' components
+            os.makedirs(box.path("work", "build", "deep"), exist_ok=True)
+            argv = [a if a != "s.yaml" else box.path("work", "s.yaml") for a in argv]
+            argv[argv.index("-o") + 1] = box.path("work", "out")
+            r = box.run(argv + ["../../in"], cwd="work/build/deep", schedule=schedule, user_config=ucfg)
         elif variant == "two-inputs":
             # a first input in front of the one under test: the patterns apply to every input
             box.build({"first/zz.cmake": fsbox.cmake_content("zz.cmake")})
@@ -272,6 +300,12 @@ def run(ctx):
         jobs.append((FILES, DIRS, ps, "cli", True, None, False, "cwd-elsewhere"))
         if not any(p in ("INPUT/", "in", "in/", "i*/", "**/in/", "ANCESTOR/", "*.cmake") for p in ps):
             jobs.append((FILES, DIRS, ps, "sfile", True, None, False, "two-inputs"))
+    for ps in psets:
+        jobs.append((FILES, DIRS, ps, "cli", True, None, False, "dotdot"))
+    for ps in [[p] for p in blank_forms()]:
+        for src in sources:
+            for sched in (None, ("reversed", ())):
+                jobs.append((BLANK_FILES, BLANK_DIRS, ps, src, True, sched))
     # two patterns supplied by two different sources in one run (the source must be irrelevant)
     two = [["k.cmake", "x1/"], ["e*.cmake", "y"], ["ABSF:e2.cmake", "x*/"], ["*.cmake", "**/deep/"], ["m.cmake", "e1.cmake"]]
     for ps in two:
